@@ -64,8 +64,70 @@ func c05Run(ops string) string {
 			upMu.Unlock()
 		}
 	}()
-	settle := func() { time.Sleep(8 * time.Millisecond) }
-	for _, op := range strings.Split(ops, ",") {
+	// wait until the observable state (upstream packets surfaced, downstream bytes, closed flags) has been
+	// stable for a few polls, so that a loaded machine cannot reorder the effects of consecutive ops
+	snapshot := func() string {
+		upMu.Lock()
+		s := strconv.Itoa(len(up))
+		upMu.Unlock()
+		for _, c := range carriers {
+			c.mu.Lock()
+			s += fmt.Sprintf("/%d:%v", len(c.down), c.closed)
+			c.mu.Unlock()
+		}
+		return s
+	}
+	settleFor := func(rounds int, max time.Duration) {
+		deadline := time.Now().Add(max)
+		last, same := snapshot(), 0
+		for same < rounds && time.Now().Before(deadline) {
+			time.Sleep(3 * time.Millisecond)
+			cur := snapshot()
+			if cur == last {
+				same++
+			} else {
+				last, same = cur, 0
+			}
+		}
+	}
+	settle := func() { settleFor(3, 500*time.Millisecond) }
+	// an op may carry expectations "@u<N>" (N upstream packets surfaced so far) and "@d<i>=<n>" (n downstream
+	// bytes on carrier i so far): the driver waits for them (bounded) so that scheduling cannot reorder effects
+	waitFor := func(exps []string) {
+		deadline := time.Now().Add(1500 * time.Millisecond)
+		for time.Now().Before(deadline) {
+			ok := true
+			for _, e := range exps {
+				if e[0] == 'u' {
+					n, _ := strconv.Atoi(e[1:])
+					upMu.Lock()
+					if len(up) < n {
+						ok = false
+					}
+					upMu.Unlock()
+				} else if e[0] == 'd' {
+					f := strings.SplitN(e[1:], "=", 2)
+					i, _ := strconv.Atoi(f[0])
+					n, _ := strconv.Atoi(f[1])
+					if i < len(carriers) {
+						carriers[i].mu.Lock()
+						if len(carriers[i].down) < n {
+							ok = false
+						}
+						carriers[i].mu.Unlock()
+					}
+				}
+			}
+			if ok {
+				return
+			}
+			time.Sleep(2 * time.Millisecond)
+		}
+	}
+	for _, opx := range strings.Split(ops, ",") {
+		parts := strings.Split(opx, "@")
+		op := parts[0]
+		exps := parts[1:]
 		switch {
 		case op == "n":
 			ws, _, err := websocket.DefaultDialer.Dial(url, nil)
@@ -102,9 +164,12 @@ func c05Run(ops string) string {
 		default:
 			continue
 		}
+		if len(exps) > 0 {
+			waitFor(exps)
+		}
 		settle()
 	}
-	time.Sleep(40 * time.Millisecond)
+	settleFor(25, 3*time.Second)
 	upMu.Lock()
 	out := []string{"up=" + func() string {
 		if len(up) == 0 {
